@@ -183,8 +183,8 @@ main = simple_main(
     build_cases,
     "c19_pickups",
     {
-        "quick": {"c19_lines": 100000, "c19_moves": 10000, "c19_charges": 8000, "c19_pickups": 500, "c19_dropoffs": 500, "c19_cancels": 1000, "c19_station_load_checks": 50000, "c19_split_cranks_of_several_steps": 100, "c19_split_records_compared": 5000, "c19_split_charge_records": 500},
-        "thorough": {"c19_lines": 2000000, "c19_moves": 200000, "c19_charges": 150000, "c19_pickups": 8000, "c19_dropoffs": 8000, "c19_cancels": 20000, "c19_station_load_checks": 1000000, "c19_split_cranks_of_several_steps": 2000, "c19_split_records_compared": 100000, "c19_split_charge_records": 10000},
+        "quick": {"c19_lines": 100000, "c19_moves": 10000, "c19_charges": 8000, "c19_pickups": 500, "c19_dropoffs": 500, "c19_cancels": 1000, "c19_station_load_checks": 50000, "c19_split_cranks_of_several_steps": 100, "c19_split_records_compared": 5000, "c19_split_charge_records": 500, "c19_station_loads_compared_with_energy_taken_on": 3000},
+        "thorough": {"c19_lines": 2000000, "c19_moves": 200000, "c19_charges": 150000, "c19_pickups": 8000, "c19_dropoffs": 8000, "c19_cancels": 20000, "c19_station_load_checks": 1000000, "c19_split_cranks_of_several_steps": 2000, "c19_split_records_compared": 100000, "c19_split_charge_records": 10000, "c19_station_loads_compared_with_energy_taken_on": 12000},
     },
     "whole runs through the real EventfulHandler and StatsHandler (file-writing, unmodified); event.log is parsed back line by line, lines are grouped per step by the file offset noted after each crank(1); "
     "sums (move distances vs odometer, charge energies vs gained), per-step station load vs charge events, StatsHandler counters vs add/cancel lines, one-to-one matching of state changes (request left, energy rose, odometer rose, trip ended) "
